@@ -296,4 +296,35 @@ PROPS["C09"] = {
     },
 }
 
+PROPS["C10"] = {
+    "lean": ["TinkVerif.Props.C10"],
+    "theorems": T("TinkVerif.Gen.Mldsa", "reduceOnce_spec add_spec sub_spec neg_spec mul_spec power2Round_spec power2Round_fips "
+                  "divBy2Gamma2_88 divBy2Gamma2_32 decompose_spec88 decompose_spec32 decompose_fips88 decompose_fips32 highBits_eq "
+                  "lowBits_eq useHint_spec88 useHint_spec32 makeHint_spec centeredAbs_spec centeredMax_spec zetas_spec consts_spec"),
+    "harness": [{"name": "c10", "pre": True, "timeout": 3000}],
+    "rule": "(1) translation validation: every regenerated scalar function vs the Go original through export hooks on boundary values "
+            "(0, 1, q-1, q/2±1, multiples of 2γ2 ±1, 2^13 multiples ±1) and random field elements (thorough: exhaustive over all of Z_q "
+            "for the unary functions); (2) packing/hint codecs vs the FIPS 204 reference; (3) algorithm level: key generation from seeds "
+            "(pk, sk bytes), deterministic signatures byte-identical, hedged signatures verify in the reference, external-mu path, verify "
+            "decisions on bit flips in c~/z/h regions, wrong lengths, other key/context, crafted boundary signatures made by the reference "
+            "with the secret key (||z||∞ = γ1−β−1 accept, = γ1−β reject, hint count = ω accept), non-canonical hint encodings; composite "
+            "ML-DSA accept iff both components accept; non-trivial = every op line, distinct by line hash",
+    "trusted_base": [KERNEL, TIE, PRIMS, "translator go/harness/translator (go/parser + go/types, whitelisted grammar, refuses unknown "
+                     "constructs), validated on every run against the Go originals through export hooks",
+                     "GoSem.lean: semantics of crypto/subtle helpers with preconditions as poison values"],
+    "assumptions": ["SHAKE is a reference primitive; the FIPS 204 reference (Prim/Mldsa.lean) is validated by Wycheproof/ACVP-derived "
+                    "vectors and agreement with Go, not proved", "NTT inverse law is tied by correspondence only"],
+    "manifest": {
+        "text": "Theorems over definitions REGENERATED from algebra.go on every run, for every element of Z_q and both γ2: reduceOnce/add/sub/"
+                "neg are arithmetic mod q; Barrett multiplication equals a·b mod q; Power2Round, Decompose, HighBits/LowBits, UseHint, "
+                "MakeHint equal FIPS 204 Alg. 35–40 incl. the q−1 corner; the magic-constant divisions equal x/(2γ2); centered norm; "
+                "zetas table = 1753^bitrev8(k) mod q; constants. A changed constant, shift, mask or operator in the Go source breaks a "
+                "proof. Tie for the rest: Go vs the independent FIPS 204 Lean implementation (keys, deterministic signatures, verify "
+                "decisions incl. crafted boundary signatures), and translation validation of the regenerated functions.",
+        "design_ref": "DESIGN.md §5.10",
+        "note": "Trusted: Lean kernel; translator (validated each run); reference FIPS 204 implementation (KAT + agreement).",
+        "technique": "Lean 4 proof over regenerated definitions (∀ Z_q) + translation validation + Go/Lean FIPS 204 correspondence",
+    },
+}
+
 NOT_BUILT = {}
